@@ -398,6 +398,11 @@ impl<T: Copy> Buffer<T> {
             n,
             s.used
         );
+        if n == 0 {
+            // Nothing to do. Importantly no tags to remove: below, consuming
+            // nothing and consuming a full buffer both give newpos == rpos.
+            return;
+        }
         let newpos = (s.rpos + n) % s.capacity();
         use std::ops::Bound::{Excluded, Included};
 
